@@ -1,6 +1,6 @@
 (* C34 — the generic theorems instantiated with the table-driven wcwidth.OfRune. *)
 From verif Require Import lib.Base lib.Utf8 gen.Tables model.C34_width model.C34
-  proofs.C34_proofs proofs.C34_builder.
+  proofs.C34_proofs proofs.C34_builder proofs.C34_search.
 Open Scope Z_scope.
 
 Lemma of_rune_range r : 0 <= of_rune r <= 2.
@@ -62,16 +62,11 @@ Proof.
   apply force_exact_width; [exact of_rune_nonneg | exact of_rune_space | exact Hn].
 Qed.
 
-(* the binary search of wcwidth.inRange agrees with plain membership at every
-   end point of every range and at its two neighbours (checked by computation
-   on the generated table) *)
-Definition table_points : list Z :=
-  flat_map (fun p : Z * Z => [fst p - 1; fst p; snd p; snd p + 1]) wcwidth_combiningRanges.
-
-Lemma table_search_partial :
-  forallb (fun r => Bool.eqb (in_range r wcwidth_combiningRanges) (in_range_lin r wcwidth_combiningRanges))
-          (-1 :: 0 :: 1114112 :: table_points) = true.
-Proof. vm_compute. reflexivity. Qed.
+(* the binary search of wcwidth.inRange over the generated table is plain
+   membership in one of the ranges, for every rune *)
+Lemma table_search r :
+  in_range r wcwidth_combiningRanges = in_range_lin r wcwidth_combiningRanges.
+Proof. apply in_range_correct. exact table_monotone. Qed.
 
 (* the oracle for observed widget lines *)
 Lemma lines_fit_sound ls W :
